@@ -3,7 +3,9 @@
 //
 // Generator: a trunk chain and 0-3 sibling branch chains of where / eval / default / delete /
 // shift / sample / derivative / changeDetect / stateCount / stateDuration / groupBy with
-// generated parameters and lambdas, over stream and batch edges, fed generated points.
+// generated parameters and lambdas, over stream and batch edges, fed generated points (on stream
+// edges, in every third case, some points lack the host tag from() groups by: they form the group
+// in which host has the empty value).
 // Oracle: reference interpreter over plain point structs written from the doc comments of
 // pipeline/*.go; every sink (trunk and each sibling) must equal the reference.
 package c10
@@ -46,6 +48,9 @@ type P struct {
 	F   map[string]kit.FV `json:"f"`
 	DC  int               `json:"dc"`
 	Cut bool              `json:"cut,omitempty"`
+	// stream edges: the point does not carry the host tag (the tag from() groups by): it belongs
+	// to the group in which host has the empty value
+	NoHost bool `json:"nohost,omitempty"`
 }
 
 type Case struct {
@@ -56,7 +61,7 @@ type Case struct {
 	Pts     []P      `json:"pts"`
 }
 
-const rule = "rapid: trunk chain + 0-3 sibling chains of where/eval/default/delete/shift/sample/derivative/changeDetect/stateCount/stateDuration/groupBy x generated points (stream and batch); " +
+const rule = "rapid: trunk chain + 0-3 sibling chains of where/eval/default/delete/shift/sample/derivative/changeDetect/stateCount/stateDuration/groupBy x generated points (stream and batch; on stream edges some points lack the tag from() groups by); " +
 	"non-trivial = a stateful node saw >=2 points of one group, or a fork in which a sibling writes a field/tag; distinct by case hash"
 
 const sec = int64(1e9)
@@ -364,10 +369,15 @@ func gen(t *rapid.T) Case {
 	if c.GroupBy {
 		groups = rapid.IntRange(1, 3).Draw(t, "groups")
 	}
+	// stream edges, every third case: some points lack the host tag
+	sparse := !c.Batch && rapid.IntRange(0, 2).Draw(t, "sparse") == 0
 	n := rapid.IntRange(0, 40).Draw(t, "n")
 	gaps := []int64{0, 1, sec / 2, sec, sec, sec, 2 * sec, 3 * sec}
 	for i := 0; i < n; i++ {
 		p := P{G: rapid.IntRange(0, groups-1).Draw(t, "g"), Gap: rapid.SampledFrom(gaps).Draw(t, "gap"), DC: rapid.IntRange(0, 1).Draw(t, "dc"), F: map[string]kit.FV{}}
+		if sparse {
+			p.NoHost = rapid.IntRange(0, 2).Draw(t, "nohost") == 0
+		}
 		p.F["i"] = kit.I(int64(rapid.IntRange(0, 6).Draw(t, "i")))
 		p.F["f"] = kit.F(float64(rapid.IntRange(0, 12).Draw(t, "f")) / 2)
 		p.F["s"] = kit.S(rapid.SampledFrom([]string{"a", "b", "it's"}).Draw(t, "s"))
@@ -565,6 +575,9 @@ func (c Case) inputs() (pts []kit.Pt, batches []kit.Bt) {
 			fields[k] = v
 		}
 		tags := map[string]string{"host": fmt.Sprintf("h%d", p.G), "dc": fmt.Sprintf("d%d", p.DC)}
+		if p.NoHost && !c.Batch {
+			delete(tags, "host")
+		}
 		if !c.Batch {
 			pt := kit.Pt{Name: "m", Tags: tags, Fields: fields, Time: t}
 			pts = append(pts, pt)
@@ -1109,7 +1122,14 @@ func run(c Case, cc *kit.Case) {
 	}
 	perGroup := map[int]int{}
 	for _, p := range c.Pts {
+		if p.NoHost && !c.Batch {
+			perGroup[-1]++
+			continue
+		}
 		perGroup[p.G]++
+	}
+	if perGroup[-1] > 0 {
+		cc.Label("point-lacks-host-tag")
 	}
 	two := false
 	for _, k := range perGroup {
@@ -1242,6 +1262,7 @@ var assumptions = []string{
 	"batch edges: sample, groupBy and tag defaults/deletes are not generated (their per-batch meaning is not documented); derivative, changeDetect, stateCount and stateDuration start afresh with every batch",
 	"sample(N) keeps the 1st, N+1st, ... point of a group (the phase the implementation uses; 'keep every N-th point')",
 	"default() treats an empty tag value like a missing tag",
+	"stream points that lack a group-by tag belong to the group in which that tag has the empty value (models.ToGroupID; InfluxDB's GROUP BY does the same); the per-point nodes pass their tags on as they are (no empty tag is added); groupBy(*) groups such a point by the tags it has",
 }
 
 func TestNodes(t *testing.T) {
